@@ -1,6 +1,7 @@
 """C08 — Diagonal update obeys exact detailed balance in every slot (Metropolis and heat-bath)."""
 from checks import pure_fns, law_audits
 from checks import extra_audits
+from checks import api_cov
 LEAN_TARGETS = ["QmcProps.C08", "drv_c08"]
 BINS = ["c08"]
 
@@ -63,4 +64,5 @@ def main(ck):
         # the CURRENT interactions, insert probability of the NEW bond bisected
         ck.correspond("generic-sampler-heatbath", "drv_c08", ck.harness("c08", ["generic"]))
     law_audits.run(ck, groups=['refine', 'ideal', 'sweep', 'heatbath', 'good'])   # idealised law of the executable model = the Markov kernel of the invariance theorems
+    api_cov.run(ck, "c08")   # otherwise unexercised public API, model-free oracles of this property
     return ck.finish(RULE)
